@@ -154,7 +154,8 @@ def compactF : Nat → Str → Str
     | some (r, rest) => r ++ compactF n rest
     | none => c :: compactF n t
 
-/-- `regex.sub(pattern, r"[\1,\2]\3", t)` (the fuel is never exhausted: a match consumes at least one character). -/
+/-- `regex.sub(pattern, r"[\1,\2]\3", t)` (the fuel is never exhausted: a match consumes at least one character,
+`Proofs/JsonText.lean: matchAt_length`, `compactF_eq_compact`). -/
 def compact (t : Str) : Str := compactF t.length t
 
 /-- the text returned by `get_json()` for the data `v`. -/
